@@ -690,10 +690,10 @@ class Check:
         "path blocked = a DENY rule at position 0 of the router ACL matching the traffic; link bandwidth is set to 1e6 so that capacity (C18) never interferes",
         "service/node state and file health are read from the simulator objects at the moment the payload reaches the server",
     ]
-    min_monitor = {"exchanges_judged": 20000, "connect_granted": 2000, "connect_refused": 2000, "sql_ok": 2000, "sql_refused": 2000,
+    min_monitor = {"exchanges_judged": 10000, "connect_granted": 2000, "connect_refused": 2000, "sql_ok": 2000, "sql_refused": 2000,
                    "forged_id_attempts": 1500, "capacity_boundary_hits": 300, "restore_calls": 1500, "restores_ok": 300,
                    "restore_calls_while_unavailable": 200, "client_ops_while_unavailable": 2000, "ops_while_path_blocked": 300,
-                   "delete_ok": 200, "encrypt_ok": 200, "red_application_payloads_accepted": 30, "quiescent_checks": 50000,
+                   "delete_ok": 200, "encrypt_ok": 200, "red_application_payloads_accepted": 30, "quiescent_checks": 30000,
                    "client_successes_checked": 3000, "nontrivial_sequences": 300}
     case_timeout = {"quick": 900, "thorough": 3600}
 
